@@ -69,6 +69,21 @@ pub fn run(args: &Args, r: &mut Report) {
         if rng.chance(1, 4) {
             case.embedder_rate = 5;
         }
+        {
+            use crate::sim::world::*;
+            let mut same = 0u64;
+            for cs in &case.script.checks {
+                if let Some(RespSpec::Reply(rep)) = cs.attempts.last() {
+                    if let BodySpec::Doc(doc) = &rep.body {
+                        let offered: Vec<_> = doc.apps.iter().filter(|a| a.updatecheck.as_ref().map(|u| u.status == "ok").unwrap_or(false)).collect();
+                        if !offered.is_empty() && offered.iter().all(|a| case.setup.apps.iter().any(|x| x.id == a.id && a.updatecheck.as_ref().and_then(|u| u.manifest_version.clone()) == Some(x.version_string()))) {
+                            same += 1;
+                        }
+                    }
+                }
+            }
+            r.count("checks-offering-only-the-installed-version", same);
+        }
         let run = run_case(&case, &mut rng);
         r.eval(case.shape_key(), case.nontrivial);
         r.interleavings.insert(run.sig);
